@@ -47,6 +47,7 @@ class Canon:
         self._alias = self._local_aliases()
 
     def _local_aliases(self) -> Dict[str, ast.expr]:
+        self._stable_params: Set[str] = set()
         counts: Dict[str, int] = {}
         vals: Dict[str, ast.expr] = {}
         f = self.func
@@ -75,6 +76,7 @@ class Canon:
                                 vals[x.id] = n.value
                             else:
                                 counts[x.id] += 1
+        self._stable_params = {p for p in params if p not in counts and p not in ('self', 'cls')}
         out = {}
         for name, c in counts.items():
             if c == 1 and name in vals and name not in params:
@@ -84,11 +86,11 @@ class Canon:
         return out
 
     def _inlinable(self, v: ast.expr) -> bool:
-        """Alias only attribute chains on self and zero-argument accessor calls on them."""
+        """Alias only attribute chains on self / on a never-reassigned parameter, and zero-argument accessor calls on them."""
         if isinstance(v, ast.Attribute):
             return self._inlinable(v.value)
         if isinstance(v, ast.Name):
-            return v.id == 'self'
+            return v.id == 'self' or v.id in self._stable_params
         if isinstance(v, ast.Call) and not v.args and not v.keywords:
             return self._inlinable(v.func)
         return False
@@ -280,6 +282,10 @@ class FuncFacts:
                     k = self.canon.key(lk)
                     eq = isinstance(op, (ast.Eq, ast.Is)) == truth
                     return {('eq' if eq else 'ne', k, repr(c))}
+                # neither side folds to a constant (e.g. ``result == NULL``): symmetric same / differ atoms
+                a, b = sorted([self.canon.key(left), self.canon.key(right)])
+                eq = isinstance(op, (ast.Eq, ast.Is)) == truth
+                return {('same' if eq else 'differ', a, b)}
         if isinstance(e, ast.Call) and unparse(e.func) == 'isinstance' and len(e.args) == 2 and truth:
             classes = self.eng._class_list(self.func, e.args[1])
             if classes:
@@ -326,6 +332,8 @@ class FuncFacts:
         out = []
         for a in fs:
             toks = tokens(a[1])
+            if a[0] in ('same', 'differ'):
+                toks = toks | tokens(a[2])
             if toks & writes or toks & names:
                 continue
             out.append(a)
@@ -470,7 +478,48 @@ class FuncFacts:
                     ip, _ = self.eng.call_is_ip(self.func, x)
                     kill_all |= ip
                     writes |= self.eng.call_writes(self.func, x)
-        return self._apply_kills(fs, kill_all, writes)
+        fs = self._apply_kills(fs, kill_all, writes)
+        return fs | frozenset(self._short_circuit_atoms(e, call))
+
+    def _short_circuit_atoms(self, root: ast.AST, call: ast.Call) -> Set[Atom]:
+        """``a and f()``: f runs only if a was true;  ``a or f()``: only if a was false;  ``f() if c else y``: only if c."""
+        out: Set[Atom] = set()
+
+        def contains(n: ast.AST) -> bool:
+            return n is call or any(x is call for x in ast.walk(n))
+
+        def walk(n: ast.AST) -> None:
+            if isinstance(n, (ast.FunctionDef, ast.AsyncFunctionDef, ast.Lambda)):
+                return
+            if isinstance(n, ast.BoolOp):
+                for i, v in enumerate(n.values):
+                    if contains(v):
+                        for prev in n.values[:i]:
+                            if not self._kills_of_expr(prev)[0]:
+                                out.update(self.cond_atoms(prev, isinstance(n.op, ast.And)))
+                        walk(v)
+                        return
+                return
+            if isinstance(n, ast.IfExp):
+                if contains(n.body):
+                    if not self._kills_of_expr(n.test)[0]:
+                        out.update(self.cond_atoms(n.test, True))
+                    walk(n.body)
+                elif contains(n.orelse):
+                    if not self._kills_of_expr(n.test)[0]:
+                        out.update(self.cond_atoms(n.test, False))
+                    walk(n.orelse)
+                elif contains(n.test):
+                    walk(n.test)
+                return
+            for c in ast.iter_child_nodes(n):
+                if contains(c):
+                    walk(c)
+                    return
+
+        if root is not None and contains(root):
+            walk(root)
+        return out
 
     def site_facts(self, call: ast.Call) -> List[Tuple[Node, FrozenSet[Atom]]]:
         """Facts at every CFG copy of the statement containing ``call`` (finally bodies are duplicated)."""
